@@ -59,6 +59,18 @@ PROPS["C04"] = {
     "assumptions": COMMON_ASSUME + ["one request in flight at a time (the property does not quantify over overlapping requests on one resource)", "the CalDAV/CardDAV pass-through clause is checked in davsim (C13 runs) by raw PUTs against recording backends"],
 }
 
+PROPS["C05"] = {
+    "engine": "wdsim", "level": "exploration",
+    "quick": {"max_runs": 100000000, "budget_s": 40, "recheck": 25},
+    "thorough": {"max_runs": 1000000000, "budget_s": 900, "recheck": 50},
+    "rule": "one evaluation = one seeded run: 3-30 calls of the public webdav.Client API (Stat, ReadDir both recursion modes, Open, Create+Write...+Close with seeded chunking, Mkdir, RemoveAll, Copy/Move with every option combination incl. nil options) through the simulated transport against the real handler and either LocalFileSystem on the disk seam or a recording in-memory FileSystem with exotic metadata; endpoints with and without path prefix / trailing slash / userinfo, names relative and absolute with special characters. Oracle: after each call the backend itself is asked (FileSystem.Stat/ReadDir/Open) and path, kind, size, mtime to the second, content type, tag and bytes must be equal; requests must be addressed to the resolved names with the requested options (wire headers and recorded backend arguments); every HTTP exchange is also judged by the C01 model (store A). Non-trivial and distinct = distinct (API function, outcome kind, character classes of the name, store, endpoint) with a successful, compared result.",
+    "real_vs_stub": {
+        "real": ["webdav.Client incl. the upload goroutine and io.Pipe of Create", "net/http.Client (redirect logic) above the simulated RoundTripper", "webdav.Handler, internal codecs", "webdav.LocalFileSystem on tmpfs (store A)"],
+        "stub": ["the wire (RoundTripper re-parses the request bytes with http.ReadRequest and calls ServeHTTP in-process)", "store B: in-memory recording FileSystem written for the harness", "file modification times from the fake clock (store A)"],
+    },
+    "assumptions": COMMON_ASSUME + ["names are sampled from alphabets of special characters, not all strings (the claim is partial in that respect)", "for collections only path and kind are compared: the server exposes no size/time/tag for collections"],
+}
+
 MANIFEST_TEXT = {
     "C01": {
         "technique": "deterministic simulation: seeded multi-client request histories against the real handler and LocalFileSystem on a simulated disk seam, refinement-checked step by step against an executable RFC 4918 resource-tree model",
@@ -83,6 +95,12 @@ MANIFEST_TEXT = {
         "level_text": "Seeded exploration of histories in which a tag learned by one client goes stale because another wrote in between; the truth table (2 headers x 7 value classes x 3 resource states x 2 methods) is covered many times per batch and the tree is compared after every request.",
         "design_ref": "DESIGN.md section 3 / C04",
         "level_note": "Trusted: the model's reading of the statement's truth table; entity tags are opaque strings learned from announcements.",
+    },
+    "C05": {
+        "technique": "deterministic simulation: real webdav.Client nodes (incl. the upload pipe and goroutine) over a simulated transport against the real handler and two stores; differential oracle that asks the backend itself after every call",
+        "level_text": "Seeded exploration of API call sequences over two stores, six endpoint spellings and special-character names; every client result is compared with what the backend reports directly, every wire exchange with the C01 model. Partial: the universal quantification over all strings is sampled from alphabets.",
+        "design_ref": "DESIGN.md section 3 / C05",
+        "level_note": "Trusted: the harness's own name resolver (RFC 3986) and the in-memory store. Collections: only path and kind are compared.",
     },
     "C17": {
         "technique": "deterministic simulation: every response of seeded histories, including histories with OS error kinds injected at the disk seam, scanned for the host path",
